@@ -520,18 +520,23 @@ func emittedBytes(w *World, fn *ssa.Function) map[byte]bool {
 				if a == nil {
 					continue
 				}
-				if s, isC := constString(a); isC {
-					for i := 0; i < len(s); i++ {
-						out[s[i]] = true
+				for _, lf := range phiLeaves(a) {
+					if s, isC := constString(lf); isC {
+						for i := 0; i < len(s); i++ {
+							out[s[i]] = true
+						}
 					}
 				}
 			}
 		case cs.Name == "fmt.Fprint" || cs.Name == "fmt.Sprint" || cs.Name == "io.WriteString" || strings.HasSuffix(cs.Name, ").WriteString") || strings.HasSuffix(cs.Name, ").WriteByte") || strings.HasSuffix(cs.Name, ").Write"):
 			for _, a := range cs.In.Common().Args {
+				var cands []ssa.Value
 				for _, v := range append(varargs(a), a) {
-					if v == nil {
-						continue
+					if v != nil {
+						cands = append(cands, phiLeaves(v)...)
 					}
+				}
+				for _, v := range cands {
 					if s, isC := constString(v); isC {
 						for i := 0; i < len(s); i++ {
 							out[s[i]] = true
@@ -791,6 +796,7 @@ var accessorKeys = map[string]string{
 func c14AccessorKeys(c *Ctx) {
 	w := c.w
 	rule := "accessor-keys"
+	ruleKVFind(c, rule, kvAccessors...)
 	for _, name := range sortedKeys(accessorKeys) {
 		want := accessorKeys[name]
 		fn := w.Fn(name)
